@@ -152,4 +152,153 @@ def sensSiteAccounted (s : String × String × String) : Bool :=
 /-- keys the pipeline's `Normalize` may rescale: never the sensitivity map -/
 def normalizeKeysAllowed : List String := ["KspaceKey.KSPACE", "KspaceKey.MASKED_KSPACE"]
 
+
+/-! ## phase 3: the ACS k-space (mask and Gaussian window), the three map types, the ESPIRiT tail,
+the engine's choice of refinement model -/
+
+section acs
+variable {α : Type} [Zero α] [Add α] [Mul α] [DecidableEq α]
+
+/-- multiply every entry of pixel `p` by `w p` (broadcast over coil and complex axes): `kspace * acs_mask`,
+`… * gaussian_mask`, `… * (max_eig > crop)` -/
+def weightPixels (w : Nat → α) (S : SMap α) : SMap α := divMapWith (fun a b => a * b) S w
+
+/-- the scalar operations of the Gaussian window that are not ring operations: integer literals
+and `x ↦ exp (-x)` -/
+structure WinNum (α : Type) where
+  ofInt : Int → α
+  expNeg : α → α
+
+/-- `torch.linspace(-1, 1, W)[j]`: the single point of `linspace(-1, 1, 1)` is the start value `-1`
+(no division); for `W ≥ 2` it is `(2 j - (W - 1)) / (W - 1)` -/
+def linspaceCoord (num : Num α) (wn : WinNum α) (W j : Nat) : α :=
+  if W ≤ 1 then wn.ofInt (-1) else num.div (wn.ofInt (2 * (j : Int) - ((W : Int) - 1))) (wn.ofInt ((W : Int) - 1))
+
+/-- the seeded variant `(arange(W) - W // 2) / (W // 2)` (for the witness theorem): divides by `0` at `W = 1` -/
+def arangeCoord (num : Num α) (wn : WinNum α) (W j : Nat) : α :=
+  num.div (wn.ofInt ((j : Int) - ((W / 2 : Nat) : Int))) (wn.ofInt ((W / 2 : Nat) : Int))
+
+/-- `(gaussian_mask / sigma) ** 2` at column `j` -/
+def gaussExponent (num : Num α) (coord : Nat → Nat → α) (sigma : α) (W j : Nat) : α :=
+  num.div (coord W j) sigma * num.div (coord W j) sigma
+
+/-- `torch.exp(-((gaussian_mask / sigma) ** 2))` at column `j` -/
+def gaussWeight (num : Num α) (wn : WinNum α) (sigma : α) (W j : Nat) : α :=
+  wn.expNeg (gaussExponent num (linspaceCoord num wn) sigma W j)
+
+/-- `if self.gaussian_sigma == 0 or not self.gaussian_sigma`: `None` and `0` switch the window off -/
+def gaussianActive (sigma : Option α) : Option α :=
+  match sigma with
+  | none => none
+  | some s => if s = 0 then none else some s
+
+/-- the masked (and weighted) k-space of `estimate_acs_image`; `W` = size of the width axis (dim -2), the
+column of the flattened pixel `p` is `p % W` -/
+def acsKspace (num : Num α) (wn : WinNum α) (sigma : Option α) (W : Nat) (k : SMap α) (m : Nat → α) : SMap α :=
+  match gaussianActive sigma with
+  | none => weightPixels m k
+  | some s => weightPixels (fun p => gaussWeight num wn s W (p % W)) (weightPixels m k)
+
+/-- `estimate_acs_image`: the backward operator `B` (inverse FFT) is arbitrary -/
+def estimateAcsImage (num : Num α) (wn : WinNum α) (B : SMap α → SMap α) (sigma : Option α) (W : Nat)
+    (k : SMap α) (m : Nat → α) : SMap α :=
+  B (acsKspace num wn sigma W k m)
+
+end acs
+
+/-- `SensitivityMapType` -/
+inductive MapType where
+  | unit | rssEstimate | espirit
+  deriving DecidableEq, Repr
+
+/-- `EstimateSensitivityMapModule.forward`: the three branches all flow into the common renormalisation;
+`calib` is the output of the ESPIRiT calibrator (arbitrary) -/
+def forwardMap {α : Type} [Zero α] [One α] [Add α] [Mul α] [DecidableEq α] (num : Num α) (ty : MapType)
+    (calib acsImage : SMap α) (coils pixels : Nat) : SMap α :=
+  renorm num (match ty with
+    | .unit => unitMap coils pixels
+    | .rssEstimate => rssNormalise num acsImage
+    | .espirit => calib)
+
+/-- `if sample[self.kspace_key].ndim > 5: raise NotImplementedError` in the ESPIRiT branch (batched rank) -/
+def espiritRankLimit : Int := 5
+def espiritSupported (rank : Nat) : Bool := decide ((rank : Int) ≤ espiritRankLimit)
+
+section espirit
+variable {α : Type} [Zero α] [Add α] [Mul α] [DecidableEq α]
+
+/-- ESPIRiT, last lines of `calculate_sensitivity_map`: `x * x.conj() / x.abs()` (an **unguarded**
+division) -/
+def espiritPhase (num : Num α) (c : α × α) : α × α := (num.div (sq c) (num.sqrt (sq c)), 0)
+
+/-- … then `* (max_eig > crop)`; `keep p ∈ {0, 1}` -/
+def espiritTail (num : Num α) (x : SMap α) (keep : Nat → α) : SMap α :=
+  weightPixels keep (x.map fun coil => coil.map (espiritPhase num))
+
+end espirit
+
+/-! ### which refinement model the engine applies -/
+
+/-- 0 = no refinement, 1 = `sensitivity_model` on 2-D data, 2 = `sensitivity_model_3d`, 3 = `sensitivity_model`
+slice by slice on 3-D data, 4 = `KeyError` (2-D data, only a 3-D model registered) -/
+def modelChoice (multicoil has2d has3d : Bool) (ndim : Int) : Nat :=
+  if multicoil && (has2d || has3d) then
+    if ndim = 2 then (if has2d then 1 else 4)
+    else if has3d then 2 else (if has2d then 3 else 4)
+  else 0
+
+/-- apply a `permute` tuple to a shape -/
+def permuteShape (perm : List Nat) (s : List Nat) : List Nat := perm.map fun i => s.getD i 0
+
+/-- `q` undoes `p` (as `permute` tuples of the same length) -/
+def permInverse (p q : List Nat) : Bool :=
+  p.length == q.length && (List.range p.length).all fun i => p.getD (q.getD i p.length) p.length == i
+
+/-- channel-first permutations of `compute_sensitivity_map` as the model assumes them -/
+def permIn2d : List Nat := [0, 1, 4, 2, 3]
+def permOut2d : List Nat := [0, 1, 3, 4, 2]
+def permIn3d : List Nat := [0, 1, 5, 2, 3, 4]
+def permOut3d : List Nat := [0, 1, 3, 4, 5, 2]
+
+/-! ### structural tables (purity, single definition, option forwarding) -/
+
+/-- an effect row `(function, kind, target)` of the purity table is harmless: the only stores are on fresh
+locals (`sensitivity_map` of the UNIT branch, `gaussian_mask_shape`) and on the output key of the sample -/
+def effectAllowed (e : String × String × String) : Bool :=
+  (e.2.1 == "subscript-store" &&
+    ((e.1 == "EstimateSensitivityMapModule.forward" && (e.2.2 == "sensitivity_map" || e.2.2 == "sample['sensitivity_map']")) ||
+     (e.1 == "EstimateSensitivityMapModule.estimate_acs_image" && e.2.2 == "gaussian_mask_shape"))) ||
+  (e.2.1 == "return-count" && e.2.2 == "1")
+
+/-- forwarding rows `(builder, constructor keyword, expression)` required of every place that constructs the module -/
+def forwardingRequired : List (String × String) :=
+  [("kspace_key", "KspaceKey.KSPACE"), ("backward_operator", "backward_operator"),
+   ("type_of_map", "sensitivity_maps_type"), ("gaussian_sigma", "sensitivity_maps_gaussian"),
+   ("espirit_threshold", "sensitivity_maps_espirit_threshold"),
+   ("espirit_kernel_size", "sensitivity_maps_espirit_kernel_size"),
+   ("espirit_crop", "sensitivity_maps_espirit_crop"), ("espirit_max_iters", "sensitivity_maps_espirit_max_iters")]
+
+def forwardingOk (site : String × List (String × String)) : Bool :=
+  forwardingRequired.all fun r => site.2.contains r
+
+/-- the branch table of `forward`: `(condition, value last assigned to sensitivity_map)` -/
+def forwardBranches : List (String × String) :=
+  [("self.type_of_map == SensitivityMapType.UNIT", "sensitivity_map.to(kspace.device)"),
+   ("self.type_of_map == SensitivityMapType.RSS_ESTIMATE", "T.safe_divide(acs_image, acs_image_rss)"),
+   ("else", "self.espirit_calibrator(sample)")]
+
+/-- the Gaussian window as the model assumes it: `(coordinates, weight)` -/
+def windowPlan : String × String :=
+  ("torch.linspace(-1, 1, kspace_data.size(width_dim))", "torch.exp(-(gaussian_mask / self.gaussian_sigma) ** 2)")
+
+/-- guard of the window -/
+def windowGuard : String := "self.gaussian_sigma == 0 or not self.gaussian_sigma"
+
+/-! ### exact rational execution of the window -/
+
+/-- `exp (-x)` is replaced by the positive rational surrogate `1 / (1 + x)` (`x ≥ 0` is a square): by
+`Props/C09.renorm_weight_invariant` the map does not depend on which positive weights are used when the
+backward operator acts pixel-wise, which is the situation the driver is compared in -/
+def ratWin : WinNum Rat := { ofInt := fun n => (n : Rat), expNeg := fun x => 1 / (1 + x) }
+
 end DirectVerif.Sens
